@@ -44,7 +44,10 @@ PROLOGS = ['', '', '', '<!-- c -->', '<?pi x?>', '<?xml version="1.0"?>', '<?xml
            '<?xml version="1.0" encoding="utf-16"?>', '<?xml version="1.0" encoding="UTF-16LE"?>',
            '<?xml version="1.0" encoding="iso-8859-1"?>', '<?xml version="1.0" encoding="us-ascii"?>',
            '<?xml version="1.0" encoding="cp1252"?><!-- c -->', '<?xml version="1.0" encoding="ucs-4"?>',
-           '<?xml version="1.1"?>', '<?xml version="1.0" standalone="yes"?>']
+           '<?xml version="1.1"?>', '<?xml version="1.0" standalone="yes"?>',
+           '<?xml version="1.0" encoding="EUC-JP"?>', '<?xml version="1.0" encoding="Shift_JIS"?>',
+           '<?xml version="1.0" encoding="GB2312"?>', '<?xml version="1.0" encoding="Big5"?>',
+           '<?xml version="1.0" encoding="EUC-KR"?><!-- c -->', '<?xml version="1.0" encoding="no-such-encoding"?>']
 
 
 def gen_entity_doc(rng, marker_path):
